@@ -172,34 +172,23 @@ pub fn loss_and_grads(spec: &NetSpec, params: &[T<f64>], input: &T<f64>, target:
         let mut g = vec![0.0; params[pi].v.len()];
         let mut sc = vec![0.0; params[pi].v.len()];
         for j in 0..g.len() {
-            let dp: Vec<T<D64>> = params
+            // forward mode over (value, running error scale): the derivative and the magnitude it is uncertain relative to
+            type DV = Dual<VA>;
+            let dp: Vec<T<DV>> = params
                 .iter()
                 .enumerate()
                 .map(|(q, p)| {
-                    let mut t: T<D64> = T::from_f64(&p.dims, &p.v);
+                    let mut t: T<DV> = T::from_f64(&p.dims, &p.v);
                     if q == pi {
-                        t.v[j].d = 1.0;
+                        t.v[j].d = VA { v: 1.0, s: 0.0 };
                     }
                     t
                 })
                 .collect();
             let (o, _) = forward_ref(spec, &dp, &T::from_f64(&input.dims, &input.v))?;
             let l = cost_ref(spec.ce, &o, &T::from_f64(&target.dims, &target.v))?;
-            g[j] = l.v.iter().map(|x| x.d).sum();
-            let da: Vec<T<DA>> = params
-                .iter()
-                .enumerate()
-                .map(|(q, p)| {
-                    let mut t: T<DA> = T::from_f64(&p.dims, &p.v);
-                    if q == pi {
-                        t.v[j].a = 1.0;
-                    }
-                    t
-                })
-                .collect();
-            let (o, _) = forward_ref(spec, &da, &T::from_f64(&input.dims, &input.v))?;
-            let l = cost_ref(spec.ce, &o, &T::from_f64(&target.dims, &target.v))?;
-            sc[j] = l.v.iter().map(|x| x.a).sum();
+            g[j] = l.v.iter().map(|x| x.d.v).sum();
+            sc[j] = l.v.iter().map(|x| x.d.s + x.d.v.abs()).sum();
         }
         grads.push(g);
         scales.push(sc);
